@@ -216,3 +216,22 @@ class Engine:
         for b in all_breaks:
             res = self._j(res, b)
         return res
+
+
+def nonempty_test(test: ast.expr, name_part: str) -> bool:
+    """Is `test` true exactly when a collection whose name contains name_part is
+    non-empty?  Accepts `x`, `len(x) > 0`, `len(x) != 0`, `len(x) >= 1`."""
+    def named(e):
+        return name_part in ast.unparse(e)
+
+    if isinstance(test, (ast.Name, ast.Attribute)) and named(test):
+        return True
+    if isinstance(test, ast.Compare) and len(test.ops) == 1 and isinstance(test.left, ast.Call) and getattr(test.left.func, "id", None) == "len" and test.left.args and named(test.left.args[0]):
+        c = test.comparators[0]
+        if isinstance(c, ast.Constant):
+            op = test.ops[0]
+            if isinstance(op, (ast.Gt, ast.NotEq)) and c.value == 0:
+                return True
+            if isinstance(op, ast.GtE) and c.value == 1:
+                return True
+    return False
